@@ -123,6 +123,10 @@ def commands(root):
         ["archive", "//a:x", "-o", "REL:" + os.path.join(root, "nocond", "deep", "x.tar.gz")],
         ["gc"], ["gc", "-n"], ["gc", "-v"], ["gc", "-n", "-v"],
         ["clean", "-f"],
+        # identifiers spelled without the leading // (":name" = root package, "pkg:name"): a command-line identifier is always
+        # project-relative, never relative to the invoking directory
+        ["run", ":top", "--again"], ["run", ":top", "--check"], ["run", "a/b:g", "--again"], ["run", "a:fail"], ["run", ":x"],
+        ["where", ":top"], ["where", "a:x", "-p"], ["where", ":x"], ["archive", "a:x", "-o", A],
     ]
     return cmds
 
